@@ -867,9 +867,11 @@ func ruleR20(c *Ctx) {
 			c.Ok(f, op.Node, desc, what, "inside sync.Once.Do", true)
 			continue
 		}
-		// (c) guarded by a non-blocking receive on the same channel
+		// (c) guarded by a non-blocking receive on the same channel: a check-then-close is only safe
+		// when a single goroutine per channel can run it
 		if guardedByClosedCheck(p, f, op) {
-			c.Ok(f, op.Node, desc, what, "guarded by a non-blocking receive on the same channel (single closer goroutine)", true)
+			ok, why := closeRunsOnce(p, ce, f, op.Chan, 0)
+			c.Check(ok, f, op.Node, desc, what, "guarded by a non-blocking receive on the same channel; single closer: "+why)
 			continue
 		}
 		// (d) closed and removed from its registry under the registry's lock
@@ -900,6 +902,15 @@ func closeRunsOnce(p *Prog, ce *ChanEngine, f *FuncInfo, ch ast.Expr, depth int)
 	}
 	bv, _ := objOf(in, base).(*types.Var)
 	if bv == nil {
+		// a method chain on a constructor result: newX().With(..).Build() — a fresh object per evaluation
+		if fn, ok := objOf(in, base).(*types.Func); ok && isConstructorFunc(p, p.byObj[fn]) {
+			if f.Lit != nil {
+				if ok2, why := literalRunsOnce(p, f); !ok2 {
+					return false, why
+				}
+			}
+			return true, "the owner object is the fresh result of constructor " + fn.Name() + "()"
+		}
 		return false, "base is not a variable"
 	}
 	// how often does body f run per activation of root? literals: go/defer/callback
@@ -930,7 +941,7 @@ func closeRunsOnce(p *Prog, ce *ChanEngine, f *FuncInfo, ch ast.Expr, depth int)
 	if root.Obj == nil {
 		return false, "closing function has no object"
 	}
-	if root.Obj.Exported() {
+	if root.Obj.Exported() && !(recvNamed(root.Obj) != nil && !recvNamed(root.Obj).Obj().Exported()) {
 		return false, fmt.Sprintf("%s is exported and can be called repeatedly on the same object; the close is not guarded by sync.Once, a CAS or a closed-check", root.QName())
 	}
 	// unexported: look at every invocation site
@@ -961,6 +972,15 @@ func closeRunsOnce(p *Prog, ce *ChanEngine, f *FuncInfo, ch ast.Expr, depth int)
 	}
 	var whys []string
 	for _, s := range sites {
+		// invoked on the fresh result of a constructor chain: one object per evaluation, loops do not matter
+		if sel, ok := unparen(s.call.Fun).(*ast.SelectorExpr); ok {
+			if rid := rootIdent(sel.X); rid != nil {
+				if fn, ok := objOf(info(s.fn), rid).(*types.Func); ok && isConstructorFunc(p, p.byObj[fn]) {
+					whys = append(whys, s.kind+" on the fresh result of "+fn.Name()+"() in "+s.fn.QName())
+					continue
+				}
+			}
+		}
 		if innermostLoop(p, s.call) != nil {
 			return false, "invoked in a loop at " + p.Pos(s.call.Pos())
 		}
